@@ -145,6 +145,17 @@ class Prev:
 
 
 class ModelBuild:
+    def record_implies_duplicate(self, key):
+        for r in self.prev.forest:
+            for n in r.walk():
+                if n.key == key and not n.raised:
+                    for m in n.walk():
+                        if m is n or m.setup_failed:
+                            continue
+                        if (m.key in self.claimed_subs) if m.kind == 'sub' else (m.path in self.claimed_files):
+                            return True
+        return False
+
     def __init__(self, tree, prev, cache_path, versions, root):
         self.root = root
         self.pre = dict(tree)
@@ -166,6 +177,9 @@ class ModelBuild:
         self.in_progress = set()
         self.claimed_files = set()
         self.claimed_subs = set()
+        # races only (C08): a call whose reusable record contains a key that a concurrent task has claimed in the
+        # meantime may itself be rejected ("implied because a cached subtree containing it is being reused")
+        self.implied_dup = False
         self.outputs = set()
         self.failed_outputs = set()
         self.created = set()
@@ -309,7 +323,7 @@ class ModelBuilder:
         key = sub_key(fname, a, kw)
         node = Node('sub', key, fname, a, kw)
         self._rec(node)
-        if key in mb.claimed_subs:
+        if key in mb.claimed_subs or (mb.implied_dup and mb.record_implies_duplicate(key)):
             node.raised = True
             node.setup_failed = True
             node.exc = 'RuntimeError'
@@ -355,7 +369,7 @@ class ModelBuilder:
             node.setup_failed = True
             node.exc = type(exc).__name__
             raise exc
-        if p in mb.claimed_files:
+        if p in mb.claimed_files or (mb.implied_dup and mb.record_implies_duplicate(('F', p))):
             setup_fail(RuntimeError('model: duplicate build_file'))
         if p == mb.cache_path:
             setup_fail(RuntimeError('model: build_file on the cache file'))
